@@ -1,36 +1,32 @@
 """S01 (supplementary, not one of the listed properties) - signature help shows the callee's type and the active parameter.
 Spec: Typing.tla tags the `(` and the commas of calls to functions whose signature is known by construction (generated
 functions called backwards, the prelude's `add`) with the text a conforming signature help must show there -
-`(P1, P2) -> R` - and the index of the active parameter (CallSig / CALLOPEN / ARGSEP).
+`(P1, lb: P2) -> R`, the callee's type as instantiated at this call, labelled parameters with their label - and the
+index of the active parameter (CallSig / CALLOPEN / ARGSEP).
 GEN: the same programs as C09; with the cursor right after each tagged token the real signature help must return that
 signature (type variables renamed, whitespace normalised) and that active parameter.
 This check is part of the growth of the specification beyond the listed properties (DESIGN.md section 10): it is not
 in MANIFEST.checks, writes evidence/S01.json and follows the same exit-code / VIOLATION / KNOWN-FINDING conventions."""
-import json
+import json, os
 import vlib
 from checks import c09
 
 
 def run(out, tier, seed):
-    r = vlib.tlc("Typing", "Typing_b.cfg", workers=8, timeout=3000, heap="8g")
-    vlib.require_ok(r, "Typing BFS")
-    out.add_tlc(r, "GEN (BFS, one function, every goal type)")
-    cases = list(r.cases())
-    nsim, per = (4, 120) if tier == "quick" else (12, 4000)
-    jobs = [dict(module="Typing", cfg="Typing_sim.cfg", workers=1, simulate=per, depth=4000, seed=seed * 1000 + i, timeout=3000, name=f"s01-sim-{i}")
-            for i in range(nsim)]
-    for j, r2 in zip(jobs, vlib.tlc_many(jobs, max_parallel=6)):
-        vlib.require_ok(r2, j["name"])
-        out.add_tlc(r2, "GEN simulation " + j["cfg"])
-        cases += list(r2.cases())
-    s = c09.run_ty(out, cases, seed, "s01", "main", prop="S01")
+    jobs, main, _ = c09.generate(tier, seed, "s01", unmasked=False)
+    for j, r in zip(jobs, main):
+        out.add_tlc(r, "GEN " + j["cfg"])
+    path = os.path.join(vlib.workdir("s01"), "programs.ndjson")
+    c09.write_cases(path, main)
+    s = c09.run_file(out, path, seed, "main", prop="S01")
     if s["signature_helps"] < 100:
         raise vlib.ToolError("too few tagged call sites - vacuous run")
     out.cov["traces_validated_against_impl"] += s["programs"]
     out.cov["evaluations"] += s["signature_helps"]
     out.cov["distinct_nontrivial"] += s["signature_helps"]
     out.cov["exhaustive"] = False
-    out.cov["rule"] = "every `(` and `,` of every call to a backwards-called generated function or to the prelude's add in the C09 programs"
+    out.cov["rule"] = ("every `(` and `,` of every positional call to an earlier generated function (generic ones at the call's instantiation, "
+                       "labelled parameters shown with their label) or to the prelude's add in the C09 programs")
     out.assumptions += ["the signature text format `(P1, P2) -> R` is glas' own (ide::SignatureHelp::signature)"]
 
 
